@@ -171,6 +171,7 @@ def run(tier: str, seed: int, rep: Report, model: Model) -> dict:
     strings = list(dict.fromkeys(strings))
     rep.rule = ("shape strings: corpus + all strings over a 19-token alphabet up to the length bound + 0-3 token mutations of valid "
                 "strings + printable noise; distinct = distinct string; non-trivial = not the empty string")
+    rep.rule += '; plus all strings of 4-5 (thorough: 6) tokens over a reduced 8-token alphabet'
     rep.exhaustive = False
 
     answers = model.ask_many([f"(parse {sx_str(s)})" for s in strings])
